@@ -1,369 +1,617 @@
-"""C48 - exported commands reproduce the request and are shell-safe (narrow: shell-quoting taint).
+"""C48 - exported commands reproduce the request and are shell-safe (decided by interpretation against a reference shell).
 
-Decided:
-  R48.1 (taint) the strings returned by ``curl_command`` / ``httpie_command`` / ``request_content_for_console`` contain
-        flow-derived text (method, URL, header names and values, host, port, peer address, body) only after ``shlex.quote``
-        or - for the body - ``request_content_for_console`` (itself checked).  Tracked through ``args`` (append / += /
-        list displays), f-strings, joins and the same-module helpers ``cleanup_request`` / ``pop_headers``.  Every key of the
-        ``formats`` registry is classified (a new exporter fails closed).
-  R48.2 (taint, per character) where request data is the FORMAT operand of a shell ``printf`` (the word right after
-        ``printf`` in a command template), both ``%`` and ``\\`` must have been escaped (``%`` -> ``%%``, ``\\`` -> ``\\\\``) by a
-        ``replace`` or by a character table applied as ``T.get(x, x)`` whose folded contents map them so; ``printf '%s' <data>``
-        (data as argument) is accepted.  TODAY VIOLATED (F-C48, known finding): ``request_content_for_console`` escapes only
-        the control characters, so a body containing a control character and ``%s`` / ``\\n`` text is re-interpreted by printf.
-NOT decided: that the quoted arguments are the ones curl/httpie need (argument equality under a real shell), the httpie
-here-string (``<<<``) appending a newline, and the raw export's parse-back (needs the HTTP/1 parser; see C01).
+How: the exporters registered under ``formats["curl"]`` / ``formats["httpie"]`` of addons/export.py (found through the registry, whatever
+they are called and however they are split into helpers) are *interpreted from their AST* (``XInterp`` = pyint; nothing of the repository
+is imported or run) on a family of concrete flows whose method, URL, header names / values, host, server address and body carry shell
+metacharacters, quotes, control characters, ``%`` and ``\\``.  The string they return is handed to a **reference evaluator of the shell
+command language** (``_helpers_sh``: POSIX quoting / expansion rules + bash ``printf``, written from the specifications, self-tested on
+every run) which yields what a shell would do with that line.
+
+  R48.1 the line is ONE simple command ``curl ...`` / ``http ...`` whose words are literal: no second command, pipeline, redirection
+        (httpie's ``<<<`` here-string excepted), parameter / arithmetic expansion, glob, tilde, brace, comment or command substitution
+        running anything but ``printf``; its argument vector encodes the request: the URL as the one positional word, the method
+        (``-X`` / httpie's first word), one ``"name: value"`` word per header (the headers the export deliberately leaves to the client -
+        content-length, accept-encoding, and host / :authority when equal to the request's host - may be absent), ``--resolve`` exactly
+        when export_preserve_original_ip applies, and - for text bodies - the body as the ``-d`` word / here-string.  A text request must
+        not make the exporter raise; a flow without request / a binary body may raise CommandError.
+  R48.2 where the body travels through a ``printf`` command substitution, the word the shell builds from it is the body.  TODAY VIOLATED
+        (F-C48, known finding): the body is the FORMAT operand with only the control characters escaped, so ``%`` / ``\\`` sequences of
+        a body that also contains a control character are re-interpreted (and a trailing newline is eaten by the substitution).
+        The finding is attributed to the function that produces the printf word (outermost helper below the exporter).
+NOT decided: curl's / httpie's own reading of the words (``-d @file``, ``-d`` implying POST for a GET with body, httpie item syntax),
+the newline the here-string appends, non-bash shells without ``printf '\\xHH'``, and the raw export's parse-back (needs the HTTP/1 parser; see C01).
 """
 
 from __future__ import annotations
 
 import ast
 import re
+import shlex
 
 from ..core import AnalysisError
-from ..core import norm
-from ..model import enclosing_func
-from ..model import qual_of
-from ..model import walk_in_order
+from ..pyint import Func
+from ..pyint import Raised
+from ..pyint import Rec
 from ..selftest import Mutant
+from . import _helpers_sh as sh
 from ._helpers_G import expected_markers
-from ._helpers_G import fold_tables
 from ._helpers_G import load_positive
-from ._helpers_G import Program
-from ._helpers_G import SnippetModel
-from ._helpers_G import TaintSpec
+from ._helpers_xi import abstract_ok
+from ._helpers_xi import RaiseOnRead
+from ._helpers_xi import Stub
+from ._helpers_xi import trusted_stdlib
+from ._helpers_xi import XInterp
 
 PROP = "C48"
 REG = {
-    "strength": "narrow",
-    "technique": "taint (source/sanitiser/sink dataflow, same-module summaries) on the command builders + per-character escape "
-    "tracking into printf format operands with constant folding of the escape table",
-    "claim": "every flow-derived piece of the curl / httpie command strings passes shlex.quote (the body: request_content_for_console); "
-    "request data used as a printf FORMAT operand must have % and \\ escaped - reported as known finding F-C48 on today's tree.",
-    "note": "shlex.quote is trusted. Does not decide argument equality under a real shell nor the raw export round-trip.",
+    "strength": "partial",
+    "technique": "interpretation of the registered curl / httpie exporters (AST interpreter, helpers followed) on hostile concrete flows; the returned "
+    "line is evaluated by a self-tested reference implementation of shell quoting / expansion / printf and its argument vector compared with the request",
+    "claim": "for every flow of the domain the exported curl / httpie line is one simple command with literal words whose arguments encode the "
+    "request's URL, method, headers and text body; a body routed through printf must be reproduced by it - reported as known finding F-C48 on today's tree.",
+    "note": "Bounded: a finite family of flows (one hostile string per field at a time plus combinations). Trusted: the reference shell evaluator "
+    "(self-tested on every run, cross-checked against bash during development), shlex as a library. Does not decide curl's / httpie's own option semantics "
+    "nor the raw export round-trip.",
 }
 
 F = "mitmproxy/addons/export.py"
-BUILDERS = ("curl_command", "httpie_command", "request_content_for_console")
-SHELL_FORMATS = {"curl": "curl_command", "httpie": "httpie_command"}
-NON_SHELL_FORMATS = {"raw": "raw", "raw_request": "raw_request", "raw_response": "raw_response"}
-RCFC = "mitmproxy.addons.export.request_content_for_console"
+CTXF = "mitmproxy/ctx.py"
+SHELL_FORMATS = ("curl", "httpie")
+NON_SHELL_FORMATS = ("raw", "raw_request", "raw_response")
+KNOWN_KEY_CONSTRUCT = "printf format operand <- request"  # ("request" = request data; kept verbatim: known_findings.json matches on it)
+BODY_ENCODER = "request_content_for_console"  # the anchor the property names for "the body as a shell word"
+BODY_ENCODER_ROLE = "<body encoder shared by the exporters>"  # the same role under another name
 
-
-class ShellSpec(TaintSpec):
-    name = "R48.1"
-    sanitisers = {
-        "shlex.quote": "POSIX single-quote quoting: the result is one shell word whatever the input",
-        RCFC: "the request body as one shell word (its own return value is a sink of R48.1; printf escaping: R48.2)",
-    }
-
-    def __init__(self, builders, dotted_prefix):
-        self.builders = set(builders)
-        self.sanitisers = dict(self.sanitisers)
-        self.returns: list = []
-
-    def is_entry(self, fn, an):
-        return qual_of(fn) in self.builders
-
-    def on_return(self, stmt, taint, frame):
-        if frame.qual in self.builders:
-            self.returns.append((frame.qual, stmt))
-            frame.hit("shell", stmt, "return", taint, "command string")
+# hostile strings: every class of character the shell gives a meaning to (XCU 2.2 / 2.6), quotes of both kinds, printf's two
+# special characters, control characters
+HOSTILE = [
+    "a b",
+    "it's",
+    'say "hi"',
+    "$(touch /tmp/pwned)",
+    "`touch /tmp/pwned`",
+    "; touch /tmp/pwned ;",
+    "| sh",
+    "&& reboot",
+    "> /tmp/out",
+    "< /etc/passwd",
+    "$HOME ${PATH}",
+    "back\\slash \\n \\x41",
+    "100% %s %d %%",
+    "*.txt ?x [a-z]",
+    "~root",
+    "#frag",
+    "{a,b}",
+    "!hist",
+    "'\"'\"'",
+    "\"'; touch /tmp/pwned; '\"",
+    "line1\nline2",
+    "tab\there",
+    "\x1b[31mred",
+    "café 中",
+    "(sub) shell",
+    "x=1 y",
+    "it's $(touch /tmp/pwned) `id` $HOME \\$x",
+    'say "hi" $(touch /tmp/pwned) `id` ${HOME}',
+    "'\"$(touch /tmp/pwned)`id`$HOME\\;|&<>*?~#!{}()[]%s\\n",
+    "",
+]
+# bodies that route through the control-character branch
+CONTROL_BODIES = [
+    "a\x01b",
+    "bell\x07 and\ttab\nnewline",
+    "a\x01 100%s literal\\n end",
+    "\x02%d %% \\\\ \\x41",
+    "\x03'; touch /tmp/pwned; '",
+    "\x04\"$(touch /tmp/pwned)\"",
+    "\x05`id` $HOME",
+    "ctl\x06 then trailing newline\n",
+    "-v starts like an option\x08",
+]
 
 
 # ---------------------------------------------------------------------------------------------------
-# R48.2
+# the world: flows / requests / headers as the exporters see them (public API of mitmproxy.http / flow / connection)
 
 
-def segments(node, mod):
-    """Template -> [('c', text) | ('e', expr)] for f-strings, + chains, and %/.format with positional placeholders; None if
-    ``node`` is not a template."""
-    if isinstance(node, ast.JoinedStr):
-        out = []
-        for v in node.values:
-            if isinstance(v, ast.Constant):
-                out.append(("c", str(v.value)))
-            else:
-                out.append(("e", v.value))
-        return out
-    if isinstance(node, ast.BinOp) and isinstance(node.op, ast.Add):
-        p = getattr(node, "_parent", None)
-        if isinstance(p, ast.BinOp) and isinstance(p.op, ast.Add):
-            return None
-        parts = []
+class Headers(Stub):
+    """multi-valued, case-insensitive header container (the subset of mitmproxy.http.Headers an exporter may use)"""
 
-        def flat(n):
-            if isinstance(n, ast.BinOp) and isinstance(n.op, ast.Add):
-                flat(n.left)
-                flat(n.right)
-            else:
-                parts.append(n)
+    _what = "request.headers"
 
-        flat(node)
-        out = []
-        for x in parts:
-            if isinstance(x, ast.Constant) and isinstance(x.value, str):
-                out.append(("c", x.value))
-            elif isinstance(x, ast.JoinedStr):
-                out += segments(x, mod)
-            else:
-                out.append(("e", x))
-        return out if any(k == "c" for k, _ in out) else None
-    fmt = args = None
-    if isinstance(node, ast.BinOp) and isinstance(node.op, ast.Mod) and isinstance(node.left, ast.Constant) and isinstance(node.left.value, str):
-        fmt, args, pat = node.left.value, (list(node.right.elts) if isinstance(node.right, ast.Tuple) else [node.right]), r"%[sr]|%%"
-    elif isinstance(node, ast.Call) and isinstance(node.func, ast.Attribute) and node.func.attr == "format" and isinstance(node.func.value, ast.Constant) \
-            and isinstance(node.func.value.value, str):
-        fmt, args, pat = node.func.value.value, list(node.args), r"\{\}|\{\{|\}\}"
-        if node.keywords and "printf" in fmt:
-            raise AnalysisError(f"printf template with keyword placeholders is not modelled: {norm(node)}")
-    if fmt is None:
+    def __init__(self, fields):
+        object.__setattr__(self, "_f", [(k, v) for k, v in fields])
+
+    @property
+    def fields(self):
+        return tuple((k.encode("utf-8", "surrogateescape"), v.encode("utf-8", "surrogateescape")) for k, v in self._f)
+
+    def items(self, multi=False):
+        if multi:
+            return list(self._f)
+        out = {}
+        for k, v in self._f:
+            out.setdefault(k, []).append(v)
+        return [(k, ", ".join(v)) for k, v in out.items()]
+
+    def keys(self):
+        return [k for k, _ in self.items()]
+
+    def values(self):
+        return [v for _, v in self.items()]
+
+    def get_all(self, name):
+        return [v for k, v in self._f if k.lower() == name.lower()]
+
+    def get(self, name, default=None):
+        vs = self.get_all(name)
+        return ", ".join(vs) if vs else default
+
+    def pop(self, name, *default):
+        vs = self.get_all(name)
+        if not vs:
+            if default:
+                return default[0]
+            raise Raised("KeyError")
+        object.__setattr__(self, "_f", [(k, v) for k, v in self._f if k.lower() != name.lower()])
+        return ", ".join(vs)
+
+    def copy(self):
+        return Headers(self._f)
+
+    def __contains__(self, name):
+        return bool(self.get_all(name))
+
+    def __getitem__(self, name):
+        vs = self.get_all(name)
+        if not vs:
+            raise KeyError(name)
+        return ", ".join(vs)
+
+    def __delitem__(self, name):
+        if name not in self:
+            raise KeyError(name)
+        self.pop(name)
+
+    def __iter__(self):
+        return iter(self.keys())
+
+    def __len__(self):
+        return len(self.keys())
+
+    def __bool__(self):
+        return bool(self._f)
+
+
+class World:
+    def __init__(self, tag, method="POST", host="example.com", port=80, path="/p?a=1", headers=None, body="payload", binary=False,
+                 peer=("10.1.2.3", 80), preserve_ip=False, has_request=True, scheme="http"):
+        self.tag = tag
+        self.method, self.host, self.port, self.path, self.scheme = method, host, port, path, scheme
+        self.url = f"{scheme}://{host}{'' if port == 80 else ':' + str(port)}{path}"
+        self.headers = list(headers if headers is not None else [("host", host), ("content-length", "7"), ("accept-encoding", "gzip"), ("x-a", "1"), ("x-a", "2")])
+        self.body, self.binary = body, binary
+        self.peer, self.preserve_ip, self.has_request = peer, preserve_ip, has_request
+
+    # -- what the property says the export must carry
+    def redundant(self, k, v) -> bool:
+        k = k.lower()
+        return k in ("content-length", "accept-encoding") or (k in ("host", ":authority") and v == self.host)
+
+    def required_headers(self):
+        return [f"{k}: {v}" for k, v in self.headers if not self.redundant(k, v)]
+
+    def optional_headers(self):
+        return [f"{k}: {v}" for k, v in self.headers if self.redundant(k, v)] + ["content-length: 0"]
+
+    def resolve(self):
+        if self.preserve_ip and self.peer and self.peer[0] and self.host != self.peer[0]:
+            return f"{self.host}:{self.port}:[{self.peer[0]}]"
         return None
-    out, pos, i = [], 0, 0
-    for mt in re.finditer(pat, fmt):
-        out.append(("c", fmt[pos:mt.start()]))
-        pos = mt.end()
-        if mt.group() in ("%%", "{{", "}}"):
-            out.append(("c", mt.group()[0]))
-            continue
-        if i >= len(args):
-            if "printf" in fmt:
-                raise AnalysisError(f"printf template: more placeholders than arguments: {norm(node)}")
-            return None
-        out.append(("e", args[i]))
-        i += 1
-    out.append(("c", fmt[pos:]))
-    if "printf" in fmt and (re.search(r"%\(|%[^sr%]|\{[^{}]+\}", fmt)):
-        raise AnalysisError(f"printf template with placeholders R48.2 does not model: {norm(node)}")
+
+    # -- the records
+    def request(self):
+        w = self
+        content = None if self.body is None else (b"\xff\xfe\x00binary\x80" if self.binary else self.body.encode("utf-8"))
+
+        def get_text(strict=True):
+            if w.body is None:
+                return None
+            if w.binary:
+                if strict:
+                    raise Raised("ValueError", "undecodable body")
+                return content.decode("utf-8", "surrogateescape")
+            return w.body
+
+        def get_content(strict=True):
+            return content
+
+        r = Rec(
+            "Request", _bases=("Message",), _name="request",
+            method=self.method, scheme=self.scheme, host=self.host, port=self.port, path=self.path, url=self.url, pretty_url=self.url,
+            pretty_host=self.host, authority=self.host if self.port == 80 else f"{self.host}:{self.port}", http_version="HTTP/1.1",
+            headers=Headers(self.headers), content=content, raw_content=content, trailers=None, stream=False,
+            timestamp_start=0.0, timestamp_end=1.0, is_http10=False, is_http11=True, is_http2=False, is_http3=False,
+            text=RaiseOnRead("ValueError") if self.binary else self.body,
+            get_text=abstract_ok(get_text), get_content=abstract_ok(get_content),
+            decode=abstract_ok(lambda strict=True: None), encode=abstract_ok(lambda *a, **k: None),
+        )
+
+        def cp():
+            c = w.request()
+            object.__setattr__(c, "headers", Headers(r.headers._f))
+            return c
+
+        object.__setattr__(r, "copy", abstract_ok(cp))
+        return r
+
+    def flow(self):
+        server = Rec("Server", _bases=("Connection",), _name="server_conn", peername=self.peer, address=(self.host, self.port), sni=None, ip_address=self.peer, tls=False, timestamp_start=0.0)
+        client = Rec("Client", _bases=("Connection",), _name="client_conn", peername=("192.0.2.7", 51234), sockname=("192.0.2.1", 8080), tls=False)
+        if not self.has_request:
+            return Rec("TCPFlow", _bases=("Flow",), _name="flow", server_conn=server, client_conn=client, id="flow-id", type="tcp", metadata={}, error=None, live=False, marked="", comment="")
+        return Rec("HTTPFlow", _bases=("Flow",), _name="flow", request=self.request(), response=None, server_conn=server, client_conn=client, id="flow-id", type="http", metadata={}, error=None,
+                   live=False, marked="", comment="", websocket=None, intercepted=False, is_replay=None)
+
+
+def worlds():
+    out = [
+        World("plain POST"),
+        World("GET without body", method="GET", body=None, headers=[("host", "example.com"), ("x-a", "1")]),
+        World("GET with empty body", method="GET", body="", headers=[("host", "example.com")]),
+        World("POST without body", body=None),
+        World("PUT, other port", method="PUT", port=8443, scheme="https"),
+        World("host header differs", headers=[("host", "other.example"), ("x-a", "1")]),
+        World(":authority equal to host", headers=[(":authority", "example.com"), ("x-a", "1")]),
+        World(":authority differs", headers=[(":authority", "other.example"), ("x-a", "1")]),
+        World("preserve ip", preserve_ip=True),
+        World("preserve ip, same address", preserve_ip=True, host="10.1.2.3"),
+        World("preserve ip, no peername", preserve_ip=True, peer=None),
+        World("no headers", headers=[]),
+        World("binary body", binary=True),
+        World("flow without request", has_request=False),
+    ]
+    for n, h in enumerate(HOSTILE):
+        if h:
+            out.append(World(f"method #{n}", method=h))
+            out.append(World(f"header name #{n}", headers=[("host", "example.com"), (h, "v")]))
+        out.append(World(f"url #{n}", path="/p?q=" + h))
+        out.append(World(f"header value #{n}", headers=[("host", "example.com"), ("x-h", h), ("x-a", "1")]))
+        out.append(World(f"body #{n}", body=h))
+        if h:
+            out.append(World(f"host #{n}", host=h, preserve_ip=True, headers=[("host", h), ("x-a", "1")]))
+            out.append(World(f"server address #{n}", peer=(h, 80), preserve_ip=True))
+            out.append(World(f"everything #{n}", method=h, host=h, path="/" + h, headers=[(h, h), ("x-h", h)], body=h, peer=(h, 1), preserve_ip=True))
+    for n, b in enumerate(CONTROL_BODIES):
+        out.append(World(f"control body #{n}", body=b))
+        out.append(World(f"control body #{n} (GET)", method="GET", body=b))
     return out
 
 
-PRINTF_FMT_POS = re.compile(r"(^|[\s;|&(`])printf\s+(--\s+)?['\"]?$")
-PRINTF_LITERAL_FMT = re.compile(r"(^|[\s;|&(`])printf\s+(--\s+)?('[^']*'|\"[^\"$`]*\"|[^\s'\"$`]+)\s")
+# ---------------------------------------------------------------------------------------------------
+# running an exporter
 
 
-def printf_operands(node, mod):
-    """[(role, expr)] for the interpolations of a command template that follow a ``printf`` word: role 'format' (the
-    interpolation IS the format operand) or 'argument' (a literal format precedes it).  None if no printf is involved."""
-    segs = segments(node, mod)
-    if segs is None or not any(k == "c" and re.search(r"(^|[\s;|&(`])printf(\s|$)", t) for k, t in segs):
-        return None
-    out = []
-    text = ""
-    seen_printf = False
-    for k, v in segs:
-        if k == "c":
-            text += v
-            continue
-        if PRINTF_FMT_POS.search(text):
-            out.append(("format", v))
-            seen_printf = True
-        elif PRINTF_LITERAL_FMT.search(text) or seen_printf:
-            out.append(("argument", v))
-        text += "\x00"  # an interpolation is opaque text
-    if not out:
-        return []
+def trusted():
+    return trusted_stdlib()
+
+
+def interp(model) -> XInterp:
+    it = XInterp(model, trusted_modules=trusted())
+    it.log_enabled = True
+    return it
+
+
+def registry(ctx, it):
+    """format name -> Func, from the evaluated ``formats`` table of export.py (whatever its spelling: dict(...), literal, built in steps)"""
+    mod = ctx.model.module(F)
+    ctx.require(mod.assigns("formats"), "export.formats (the registry of export formats) vanished")
+    reg = it.module_global(F, "formats")
+    ctx.require(isinstance(reg, dict) and reg and all(isinstance(k, str) for k in reg), f"export.formats does not evaluate to a name -> function table: {reg!r}")
+    for k, v in reg.items():
+        ctx.require(k in SHELL_FORMATS or k in NON_SHELL_FORMATS, f"export format {k!r} is not classified as shell / non-shell by R48.1 (new exporter)")
+        ctx.require(isinstance(unwrap(v)[0], Func) and isinstance(unwrap(v)[0].node, (ast.FunctionDef, ast.Lambda)), f"export format {k!r} is not bound to a function of the repository: {v!r}")
+    ctx.require(set(SHELL_FORMATS) <= set(reg), "curl / httpie vanished from export.formats")
+    return {k: Exporter(*unwrap(reg[k])) for k in SHELL_FORMATS}
+
+
+def unwrap(v):
+    """registry value -> (repository function, leading arguments, keyword arguments): a function, or a functools.partial of one"""
+    import functools
+
+    args, kwargs = (), {}
+    while isinstance(v, functools.partial):
+        args, kwargs = tuple(v.args) + args, {**v.keywords, **kwargs}
+        v = v.func
+    return getattr(v, "_pyint_func", v), args, kwargs
+
+
+class Exporter:
+    def __init__(self, func, args, kwargs):
+        self.func, self.args, self.kwargs = func, args, kwargs
+        self.node, self.mod = func.node, func.mod
+
+
+def run_export(it, model, func, world):
+    """-> ('ok', text, log) | ('raise', name, log)"""
+    options = Rec("Options", _name="ctx.options", export_preserve_original_ip=world.preserve_ip)
+    it.overrides[(CTXF, "options")] = options
+    it.log = []
+    it.steps = 0
+    o = it.outcome(lambda: it.call_value(func.func, *func.args, world.flow(), **func.kwargs))
+    return o, list(it.log)
+
+
+CURL_TAKES_VALUE = {"-H": "H", "--header": "H", "-X": "X", "--request": "X", "-d": "D", "--data": "D", "--data-raw": "D", "--data-binary": "D", "--data-ascii": "D", "--resolve": "R"}
+CURL_FLAGS = {"--compressed"}
+
+
+def decode_curl(cmd: sh.Cmd):
+    """curl argument vector -> {'H': [...], 'X': [...], 'D': [(word, tags)], 'R': [...], 'pos': [...], 'flags': [...]}"""
+    out = {"H": [], "X": [], "D": [], "R": [], "pos": [], "flags": []}
+    a, info = cmd.argv, cmd.info
+    i = 1
+    while i < len(a):
+        w = a[i]
+        if w in CURL_TAKES_VALUE and i + 1 < len(a):
+            k = CURL_TAKES_VALUE[w]
+            out[k].append((a[i + 1], info[i + 1]) if k == "D" else a[i + 1])
+            i += 2
+        elif w in CURL_FLAGS:
+            out["flags"].append(w)
+            i += 1
+        else:
+            out["pos"].append(w)
+            i += 1
     return out
 
 
-ESCAPED = {"%": "%%", "\\": "\\\\"}
+def decode_httpie(cmd: sh.Cmd):
+    a = cmd.argv
+    return {"X": a[1:2], "pos": a[2:3], "H": a[3:], "D": list(zip(cmd.herestrings, cmd.hs_info)), "R": [], "flags": []}
 
 
-class PrintfSpec(TaintSpec):
-    """One run per character c in {'%', '\\'}: data is clean once c has been escaped."""
-
-    def __init__(self, char):
-        self.char = char
-        self.name = f"R48.2[{char}]"
-        self.visited: dict[int, tuple] = {}
-
-    def is_entry(self, fn, an):
-        return True
-
-    def _table_ok(self, name, call, frame):
-        fn = frame.fn
-        use_stmt = call
-        while not isinstance(use_stmt, ast.stmt):
-            use_stmt = use_stmt._parent
-        tables = fold_tables(fn.body, {name}, f"{frame.mod.rel}::{frame.qual}")
-        if name not in tables:
-            return None
-        for n in ast.walk(fn):  # every write happens before the use (the fold is flow-insensitive)
-            if isinstance(n, ast.stmt) and n is not use_stmt and n.lineno > use_stmt.lineno and not isinstance(n, (ast.FunctionDef,)):
-                from ._helpers_G import _writes_table
-
-                if _writes_table(n, {name}) and n._parent is fn:
-                    raise AnalysisError(f"{frame.mod.rel}::{frame.qual}: table {name} is written after it is applied (not modelled)")
-        return tables[name].get(self.char) == ESCAPED[self.char]
-
-    def sanitiser(self, call, dotted, frame):
-        f = call.func
-        if isinstance(f, ast.Attribute) and f.attr == "replace" and len(call.args) >= 2 and all(isinstance(a, ast.Constant) for a in call.args[:2]):
-            if call.args[0].value == self.char and call.args[1].value == ESCAPED[self.char] and len(call.args) == 2:
-                return f"replace({self.char!r}, {ESCAPED[self.char]!r})"
-            return None
-        if isinstance(f, ast.Attribute) and f.attr == "get" and isinstance(f.value, ast.Name) and f.value.id in frame.locals and len(call.args) == 2 \
-                and isinstance(call.args[0], ast.Name) and isinstance(call.args[1], ast.Name) and call.args[0].id == call.args[1].id:
-            ok = self._table_ok(f.value.id, call, frame)
-            if ok:
-                return f"character table {f.value.id} maps {self.char!r} to {ESCAPED[self.char]!r} (folded)"
-        return None
-
-    def _check(self, node, frame):
-        ops = printf_operands(node, frame.mod)
-        if ops is None:
-            return
-        rows = []
-        for role, e in ops:
-            t = frame.taint(e) if role == "format" else frozenset()
-            rows.append((role, e, t))
-            if t:
-                frame.hit("printf", node, norm(e), t, "printf format operand")
-        self.visited[id(node)] = (frame.mod.rel, frame.qual, node, rows)
-
-    def on_node(self, node, frame):
-        self._check(node, frame)
-
-    def on_call(self, call, dotted, frame):
-        self._check(call, frame)
+def multiset_diff(have, required, optional):
+    """(missing required, unexpected) as lists"""
+    have = list(have)
+    missing = []
+    for r in required:
+        if r in have:
+            have.remove(r)
+        else:
+            missing.append(r)
+    extra = []
+    opt = list(optional)
+    for h in have:
+        if h in opt:
+            opt.remove(h)
+        else:
+            extra.append(h)
+    return missing, extra
 
 
-def run_printf(model, mod):
-    """-> {id(template): (rel, qual, node, {operand text: (role, expr, {char: origins})})}"""
-    templates = [n for n in walk_in_order(mod.tree) if isinstance(n, (ast.JoinedStr, ast.BinOp, ast.Call)) and printf_operands(n, mod) is not None]
-    fns = []
-    for n in templates:
-        fn = enclosing_func(n)
-        if fn is None:
-            raise AnalysisError(f"{mod.rel}:{n.lineno}: printf template outside a function is not modelled")
-        if all(fn is not f for f in fns):
-            fns.append(fn)
-    res: dict = {}
-    for ch in ("%", "\\"):
-        spec = PrintfSpec(ch)
-        prog = Program(model, spec)
-        prog.run([(mod, fn) for fn in fns])
-        for n in templates:
-            if id(n) not in spec.visited:
-                raise AnalysisError(f"{mod.rel}:{n.lineno}: printf template in {qual_of(n)} was not reached by the taint engine")
-            rel, q, node, rows = spec.visited[id(n)]
-            ent = res.setdefault(id(n), (rel, q, node, {}))
-            for role, e, t in rows:
-                r = ent[3].setdefault(norm(e), (role, e, {}))
-                if t:
-                    r[2][ch] = t
-    return res
+def judge(fmt, world, outcome):
+    """-> [(rule, aspect, message)] for one exporter run"""
+    probs = []
+    if outcome[0] == "raise":
+        may = (not world.has_request) or (world.binary and world.body)
+        if not (may and outcome[1] == "CommandError"):
+            probs.append(("R48.1", "raises", f"raises {outcome[1]} instead of producing a command"))
+        return probs
+    line = outcome[1]
+    if not isinstance(line, str):
+        raise AnalysisError(f"{fmt} exporter returned {type(line).__name__}, not str, in the interpreted model")
+    if not world.has_request:
+        probs.append(("R48.1", "raises", "produces a command for a flow without request"))
+        return probs
+    try:
+        t = sh.run(line)
+    except sh.ShellSyntaxError as e:
+        return [("R48.1", "not a complete shell command", f"the shell cannot complete the line ({e})")]
+    for ev in t.events:
+        if ev[0] == "command":
+            probs.append(("R48.1", "runs another command", f"the line makes the shell run `{ev[1]}`"))
+        elif ev[0] in ("operator", "subshell"):
+            probs.append(("R48.1", "not one simple command", f"unquoted {ev[1]!r} ends / combines commands"))
+        elif ev[0] == "redirect":
+            probs.append(("R48.1", "redirection", f"unquoted redirection {ev[1]!r}"))
+        else:
+            probs.append(("R48.1", "shell expansion of request data", f"the shell performs {ev[0]} {' '.join(map(str, ev[1:]))}".rstrip()))
+    if len(t.commands) != 1:
+        probs.append(("R48.1", "not one simple command", f"{len(t.commands)} commands: {[c.argv[:1] for c in t.commands]}"))
+    if not t.commands:
+        return probs
+    cmd = t.commands[0]
+    prog = "curl" if fmt == "curl" else "http"
+    if cmd.argv[:1] != [prog]:
+        probs.append(("R48.1", "command name", f"the command run is {cmd.argv[:1]}, not {prog}"))
+        return probs
+    d = decode_curl(cmd) if fmt == "curl" else decode_httpie(cmd)
+    if fmt == "httpie" and cmd.herestrings and len(cmd.herestrings) > 1:
+        probs.append(("R48.1", "redirection", "several here-strings"))
+    if d["pos"] != [world.url]:
+        probs.append(("R48.1", "URL", f"positional words {d['pos']!r}, expected the URL {world.url!r} alone"))
+    if fmt == "curl":
+        if not (d["X"] == [world.method] or (world.method == "GET" and d["X"] == [])):
+            probs.append(("R48.1", "method", f"-X words {d['X']!r} for method {world.method!r}"))
+    elif d["X"] != [world.method]:
+        probs.append(("R48.1", "method", f"method word {d['X']!r} for method {world.method!r}"))
+    missing, extra = multiset_diff(d["H"], world.required_headers(), world.optional_headers())
+    if missing or extra:
+        probs.append(("R48.1", "header set", f"header words missing {missing!r} / unexpected {extra!r}"))
+    res = world.resolve()
+    if d["R"] != ([res] if res else []) and fmt == "curl":
+        probs.append(("R48.1", "resolve", f"--resolve words {d['R']!r}, expected {[res] if res else []!r} (export_preserve_original_ip={world.preserve_ip})"))
+    if world.binary:
+        return probs
+    body = world.body or ""
+    want = [body] if body else []
+    got = [w for w, _ in d["D"]]
+    if got != want:
+        via_printf = any("printf" in tags for _, tags in d["D"])
+        if via_printf and len(got) == 1 and want:
+            fmts = [p[0] for p in t.printf]
+            probs.append(("R48.2", "printf", f"the shell's printf turns the format {fmts[-1][:60]!r} into {got[0][:60]!r}, the body is {body[:60]!r}"))
+        else:
+            probs.append(("R48.1", "body", f"body words {[g[:60] for g in got]!r}, expected {[w[:60] for w in want]!r}"))
+    return probs
+
+
+def blame(fmt_func, log, line):
+    """the function that produced the printf word: a repository function below the exporter whose (string) result contains a printf
+    substitution and is part of the exported line - request_content_for_console if it is one of them, else the outermost one; the
+    exporter itself if there is none.  -> qualname"""
+    top = getattr(fmt_func.node, "_qual", getattr(fmt_func.node, "name", "<lambda>"))
+    cands = [(depth, i, qual) for i, (depth, rel, qual, res) in enumerate(log) if rel == F and isinstance(res, str) and "printf" in res and res in line and qual != top]
+    if not cands:
+        return top
+    if any(q == BODY_ENCODER for _, _, q in cands):
+        return BODY_ENCODER  # the anchor the property names, wherever it sits in the chain of helpers
+    cands.sort(key=lambda c: (c[0], -c[1]))
+    return cands[0][2]
+
+
+# ---------------------------------------------------------------------------------------------------
+
+
+def check_reference(ctx):
+    """the reference shell must behave as its specification examples say, accept a correct encoder and reject the defective one -
+    otherwise it decides nothing (AnalysisError)"""
+    bad = sh.selftest()
+    if bad:
+        raise AnalysisError(f"reference shell self-test failed: {bad[:3]}")
+    bodies = [h for h in HOSTILE if h] + CONTROL_BODIES
+
+    def ansi_c(text):  # a correct encoder: bash ANSI-C quoting
+        return "$'" + "".join("\\\\" if c == "\\" else "\\'" if c == "'" else f"\\x{ord(c):02x}" if ord(c) < 32 else c for c in text) + "'"
+
+    def printf_fixed(text):  # printf -- with % and \ escaped as well (correct except for trailing newlines, which $() removes)
+        esc = "".join("%%" if c == "%" else "\\\\" if c == "\\" else f"\\x{ord(c):02x}" if ord(c) < 32 else c for c in text)
+        return f'"$(printf -- {shlex.quote(esc)})"'
+
+    def printf_today(text):
+        esc = "".join(f"\\x{ord(c):02x}" if ord(c) < 32 else c for c in text)
+        return f'"$(printf {shlex.quote(esc)})"'
+
+    def word(enc, b):
+        t = sh.run("curl -d " + enc(b))
+        return t.commands[0].argv[2] if len(t.commands) == 1 and len(t.commands[0].argv) == 3 and not t.events else None
+
+    if any(word(ansi_c, b) != b for b in bodies):
+        raise AnalysisError("reference shell: a correctly ANSI-C quoted body is not reproduced")
+    if any(word(printf_fixed, b) != b for b in bodies if not b.endswith("\n")):
+        raise AnalysisError("reference shell: a printf word with % and \\ escaped is not reproduced")
+    if all(word(printf_today, b) == b for b in CONTROL_BODIES):
+        raise AnalysisError("reference shell: the defective printf encoding (only control characters escaped) is reproduced for every body")
+    if any(word(shlex.quote, b) != b for b in bodies):
+        raise AnalysisError("reference shell: shlex.quote(body) is not reproduced")
+    ctx.note(f"reference shell: {len(sh.SELFTEST) + len(sh.SELFTEST_ERRORS)} specification examples, 3 reference encoders on {len(bodies)} bodies behave as specified")
+
+
+def check_examples(ctx):
+    """both directions on the example file, by the same pipeline (interpret, evaluate with the reference shell): the repository instance of
+    R48.2 is a known finding, so the mutants alone cannot show that the rule can be silent on a repaired encoder"""
+    pos = load_positive("R48_2.py")
+    marks = expected_markers(pos)
+    want, clean = set(marks.get("EXPECT:R48.2", [])), set(marks.get("CLEAN:R48.2", []))
+    it = XInterp(ctx.model, trusted_modules=trusted())
+    got, checked = set(), set()
+    for q, fn in pos.defs().items():
+        if not isinstance(fn, ast.FunctionDef):
+            continue
+        lines = {n.lineno for n in ast.walk(fn) if isinstance(n, ast.Return)} & (want | clean)
+        if len(lines) != 1:
+            continue
+        line = lines.pop()
+        checked.add(line)
+        bad = False
+        uses_suffix = "x-suffix" in ast.unparse(fn)  # (this example appends a header value to the body)
+        for b in [b for b in CONTROL_BODIES if not b.endswith("\n") and not b.startswith("-")] + ["plain %s \\n"]:  # (trailing newlines removed by $() / a leading '-' read as an option are not what the examples are about)
+            for suffix in ("", "%s\\n"):
+                w = World("example", body=b, headers=[("x-suffix", suffix)] if suffix else [])
+                o = it.outcome(lambda: it.apply(Func(pos, fn), [w.request()], {}, 0))
+                if o[0] != "ok" or not isinstance(o[1], str):
+                    raise AnalysisError(f"R48.2 example {q}: not interpretable ({o})")
+                try:
+                    t = sh.run("curl -d " + o[1])
+                except sh.ShellSyntaxError:
+                    bad = True
+                    continue
+                words = t.commands[0].argv[2:] if t.commands else []
+                if t.events or len(t.commands) != 1 or words != [b + suffix if uses_suffix else b]:
+                    bad = True
+        if bad:
+            got.add(line)
+    if got != want or not clean <= checked or len(want) < 4 or len(clean) < 3:
+        raise AnalysisError(f"R48.2 examples: reported lines {sorted(got)}, expected {sorted(want)}; clean encoders checked {sorted(clean & checked)} of {sorted(clean)}")
+    ctx.note(f"R48.2 examples: {len(want)} defective printf encoders reported, {len(clean)} repaired / argument-position encoders silent")
 
 
 def check(ctx):
     m = ctx.model
-    ctx.rule("R48.1", "flow-derived text reaches the curl/httpie command strings only through shlex.quote (body: request_content_for_console) - else the "
-             "exported line runs other commands or passes other arguments")
-    ctx.rule("R48.2", "request data used as a printf FORMAT operand has % and \\ escaped (else printf re-interprets %s / \\n sequences of the body)")
-    ctx.trust("shlex.quote produces one POSIX shell word for any input")
-    ctx.assume("a callee outside export.py returns data derived from its operands only")
-    mod = m.module(F)
-    for b in BUILDERS:
-        ctx.func(F, b)
-    # every registered export format is classified
-    reg = m.const(F, "formats")
-    ctx.require(isinstance(reg, ast.Call) and norm(reg.func) == "dict" and not reg.args and all(k.arg for k in reg.keywords), "export.formats is no longer `dict(name=function, ...)`")
-    for k in reg.keywords:
-        want = SHELL_FORMATS.get(k.arg) or NON_SHELL_FORMATS.get(k.arg)
-        ctx.require(want is not None, f"export format {k.arg!r} is not classified as shell / non-shell by R48.1 (new exporter)")
-        ctx.require(isinstance(k.value, ast.Name) and k.value.id == want, f"export format {k.arg!r} is now produced by {norm(k.value)} (R48.1 anchors {want})")
-    ctx.require(set(SHELL_FORMATS) <= {k.arg for k in reg.keywords}, "curl / httpie vanished from export.formats")
-
-    # ---- R48.1 ---------------------------------------------------------------------------------
-    spec = ShellSpec(BUILDERS, mod.dotted)
-    prog = Program(m, spec)
-    fns = [(mod, d) for q, d in mod.defs().items() if isinstance(d, (ast.FunctionDef, ast.AsyncFunctionDef))]
-    hits = prog.run(fns)
-    for rel, q in prog.analysed:
-        ctx.functions.add(f"{rel}::{q}")
-    by_ret: dict[int, list] = {}
-    for h in hits:
-        by_ret.setdefault(id(h.node), []).append(h)
-    seen = set()
-    for q, st in spec.returns:
-        if id(st) in seen:
-            continue
-        seen.add(id(st))
-        hs = by_ret.get(id(st), [])
-        if hs:
-            for h in hs:
-                for o in sorted(h.origins, key=lambda o: (o.text, o.via)):
-                    ctx.fail("R48.1", (F, q, st), f"return {norm(st.value)[:60]} <- {o.text}",
-                             f"flow-derived text reaches the command string without shlex.quote (path: {' > '.join(o.via) or 'direct'})", origin=o.text)
-        else:
-            ctx.ok("R48.1", f"{q}: return {norm(st.value)[:70]} carries only quoted flow data")
-    quoted = [d for d, why in prog.discharged()]
-    for d, why in prog.discharged():
-        ctx.note(f"R48.1 discharged {d}: {why}")
-    ctx.require(any("shlex.quote(arg)" in d for d in quoted) and any("request_content_for_console(request)" in d for d in quoted),
-                "R48.1: the quoting of args / the body was not exercised (anchors changed shape)")
-    ctx.expect_instances("R48.1", 4)
-
-    # ---- R48.2 ---------------------------------------------------------------------------------
-    res = run_printf(m, mod)
-    for rel, q, node, rows in res.values():
-        for text, (role, e, per_char) in rows.items():
-            if role == "argument":
-                ctx.ok("R48.2", f"{q}: printf with a literal format, {{{text}}} is an argument")
-                continue
-            if per_char:
-                missing = " and ".join(repr(c) for c in sorted(per_char))
-                roots = sorted({o.root for t in per_char.values() for o in t})
-                ctx.fail("R48.2", (rel, q, node), f"printf format operand <- {', '.join(roots)}",
-                         f"{{{text}}} is the FORMAT operand of printf and carries request data in which {missing} are not escaped "
-                         f"(a body containing a control character and e.g. '%s' or '\\\\n' text is re-interpreted)",
-                         operand=text, unescaped=sorted(per_char), origins=sorted({o.text for t in per_char.values() for o in t}))
-            else:
-                ctx.ok("R48.2", f"{q}: printf format operand {{{text}}} has % and \\ escaped")
+    ctx.rule("R48.1", "the exported curl / httpie line, evaluated by the reference shell, is one simple command with literal words whose arguments encode the "
+             "request's URL, method, headers, --resolve and text body - else the line runs other commands or sends another request")
+    ctx.rule("R48.2", "a body routed through a printf command substitution is reproduced by it (else printf re-interprets %s / \\n sequences of the body)")
+    ctx.trust("reference evaluator of shell quoting / expansion / bash printf (mitmlint/props/_helpers_sh.py, self-tested on every run)")
+    ctx.trust("shlex as a library (its quoting is *checked* through the reference shell, not assumed)")
+    ctx.assume("request / flow objects behave like mitmproxy.http.Request / HTTPFlow for the attributes the exporters read (world model in C48.py)")
+    check_reference(ctx)
+    it = interp(m)
+    exporters = registry(ctx, it)
+    ws = worlds()
+    ctx.bounds.append(f"{len(ws)} concrete flows per exporter: {len(HOSTILE)} hostile strings in each field separately and together, {len(CONTROL_BODIES)} control-character bodies")
+    results = {}  # fmt -> (func, qual, seen findings, groups, number of bodies reproduced through printf)
+    for fmt, func in exporters.items():
+        qual = getattr(func.node, "_qual", getattr(func.node, "name", "<lambda>"))
+        ctx.functions.add(f"{func.mod.rel}::{qual}")
+        where = (func.mod.rel, qual, func.node)
+        seen: dict = {}
+        groups: dict = {}
+        printf_ok = 0
+        for w in ws:
+            (o, log) = run_export(it, m, func, w)
+            ctx.cells += 1
+            for _, rel, q, _res in log:
+                ctx.functions.add(f"{rel}::{q}")
+            probs = judge(fmt, w, o)
+            line = o[1] if o[0] == "ok" and isinstance(o[1], str) else ""
+            grp = re.sub(r" #\d+.*", "", w.tag)
+            groups.setdefault(grp, [0, 0])[0] += 1
+            if not probs:
+                groups[grp][1] += 1
+                if "printf" in line:
+                    printf_ok += 1
+            for rule, aspect, msg in probs:
+                if rule == "R48.2":
+                    key = (rule, blame(func, log, line))
+                    if key not in seen:
+                        seen[key] = [(None, KNOWN_KEY_CONSTRUCT, f"{fmt} export, {w.tag}: {msg} - request data is the FORMAT operand of printf with '%' / '\\' not escaped "
+                                      f"(a body containing a control character and e.g. '%s' or '\\n' text is re-interpreted). Line: {line[:120]!r}", rule), []]
+                else:
+                    key = (rule, aspect)
+                    if key not in seen:
+                        seen[key] = [(where, f"{fmt} export: {aspect}", f"{w.tag}: {msg}. Line: {line[:160]!r}", rule), []]
+                seen[key][1].append(w.tag)
+        results[fmt] = (func, qual, seen, groups, printf_ok)
+    # attribution of R48.2: the function that builds the printf word.  A function blamed from EVERY exporter is the shared body encoder
+    # (today: request_content_for_console, the anchor named by the property); if it has been renamed it is reported under its role.
+    blamed = [{k[1] for k in seen if k[0] == "R48.2"} for _, _, seen, _, _ in results.values()]
+    shared = set.intersection(*blamed) if blamed else set()
+    for fmt, (func, qual, seen, groups, printf_ok) in results.items():
+        for key, ((whr, construct, reason, rule), tags) in seen.items():
+            if rule == "R48.2":
+                bq = key[1]
+                label = bq if bq == BODY_ENCODER or bq not in shared else BODY_ENCODER_ROLE
+                whr = (F, label, m.module(F).get(bq) or func.node)
+            ctx.fail(rule, whr, construct, reason + f" [{len(tags)} flows of the domain: {', '.join(tags[:6])}{' ...' if len(tags) > 6 else ''}]", flows=tags[:40])
+        for g, (n, good) in groups.items():
+            if good == n:
+                ctx.ok("R48.1", f"{fmt} ({qual}): {g} - {n} flow(s): one simple command, literal words, arguments encode the request")
+        if not any(r == "R48.2" for r, _ in seen):
+            ctx.ok("R48.2", f"{fmt} ({qual}): {printf_ok} bodies routed through printf are reproduced by it" if printf_ok else f"{fmt} ({qual}): no body is routed through printf")
+    ctx.expect_instances("R48.1", 16)
     ctx.expect_instances("R48.2", 1)
-    _would_be_repaired(ctx, mod, res)
-
-    # both directions on the example file (the repository instance is a known finding, so the mutants alone cannot show the rule can be silent)
-    pos = load_positive("R48_2.py")
-    pres = run_printf(SnippetModel(pos), pos)
-    marks = expected_markers(pos)
-    want, clean = set(marks.get("EXPECT:R48.2", [])), set(marks.get("CLEAN:R48.2", []))
-    got = {node.lineno for rel, q, node, rows in pres.values() if any(pc for role, e, pc in rows.values())}
-    checked = {node.lineno for rel, q, node, rows in pres.values()}
-    if got != want or not clean <= checked or len(want) < 4 or len(clean) < 3:
-        raise AnalysisError(f"R48.2 examples: reported lines {sorted(got)}, expected {sorted(want)}; clean templates checked {sorted(clean & checked)} of {sorted(clean)}")
-    ctx.note(f"R48.2 examples: {len(want)} defective printf templates reported, {len(clean)} repaired / argument-position templates silent")
-
-
-def _would_be_repaired(ctx, mod, res):
-    """The repository instance is a known finding, so no mutant can show R48.2 going silent on the real code.  Do it here: apply
-    the natural repair (add '%' -> '%%' and '\\' -> '\\\\' to the escape table) to the source text IN MEMORY and require silence."""
-    from ..model import Module
-
-    bad = [(rel, q, node) for rel, q, node, rows in res.values() if any(pc for role, e, pc in rows.values())]
-    if not bad:
-        ctx.note("R48.2: no violated printf operand in export.py - repair self-test not applicable")
-        return
-    for rel, q, node in bad:
-        fn = enclosing_func(node)
-        gets = [c for c in walk_in_order(fn) if isinstance(c, ast.Call) and isinstance(c.func, ast.Attribute) and c.func.attr == "get" and isinstance(c.func.value, ast.Name)
-                and len(c.args) == 2 and norm(c.args[0]) == norm(c.args[1])]
-        tabs = {c.func.value.id for c in gets}
-        defs = [s for s in fn.body if isinstance(s, ast.Assign) and len(s.targets) == 1 and isinstance(s.targets[0], ast.Name) and s.targets[0].id in tabs]
-        if len(tabs) != 1 or len(defs) != 1:
-            ctx.note(f"R48.2: {q} does not use a single character table - repair self-test skipped")
-            continue
-        t = defs[0].targets[0].id
-        lines = mod.source.splitlines(keepends=True)
-        pad = " " * defs[0].col_offset
-        fix = f'{pad}{t}["%"] = "%%"\n{pad}{t}["\\\\"] = "\\\\\\\\"\n'
-        lines.insert(defs[0].end_lineno, fix)
-        repaired = Module(mod.rel, "".join(lines))
-        pres = run_printf(SnippetModel(repaired), repaired)
-        still = [n.lineno for r_, q_, n, rows in pres.values() if q_ == q and any(pc for role, e, pc in rows.values())]
-        if still:
-            raise AnalysisError(f"R48.2 self-test: the rule still fires after adding % and \\ to {t} in {q} (lines {still})")
-        ctx.note(f"R48.2 self-test: with '%' and '\\' added to {t} (in memory) the rule is silent on {q}")
+    check_examples(ctx)
 
 
 MUTANTS = [
@@ -377,8 +625,15 @@ MUTANTS = [
            "        args += [\"-X\", request.method]\n\n    args.append(request.pretty_url)\n\n    command = \" \".join(shlex.quote(arg) if \" \" in arg else arg for arg in args)\n", "R48.1"),
     Mutant("body-plain-branch-unquoted", F, "    return shlex.quote(escaped_text)\n", "    return \"'\" + escaped_text + \"'\"\n", "R48.1"),
     Mutant("body-printf-branch-unquoted", F, "        return f'\"$(printf {shlex.quote(escaped_text)})\"'\n", "        return f'\"$(printf \\'{escaped_text}\\')\"'\n", "R48.1"),
-    # R48.2: the repository instance is the known finding F-C48; these add a *second* printf format operand (distinct construct)
+    Mutant("double-quoted-arguments", F, "    command = \" \".join(shlex.quote(arg) for arg in args)\n", "    command = \" \".join('\"' + arg.replace('\\\\', '\\\\\\\\').replace('\"', '\\\\\"') + '\"' if \"'\" in arg else shlex.quote(arg) for arg in args)\n", "R48.1"),
+    Mutant("curl-repeated-headers-folded", F, "    for k, v in request.headers.items(multi=True):\n        if k.lower() == \"accept-encoding\":", "    for k, v in request.headers.items():\n        if k.lower() == \"accept-encoding\":", "R48.1"),
+    Mutant("curl-header-value-through-dead-printf", F, "            args += [\"-H\", f\"{k}: {v}\"]\n", "            args += [\"-H\", \"$(printf %s)\" % shlex.quote(f\"{k}: {v}\")]\n", "R48.1"),
+    Mutant("curl-method-dropped", F, "        args += [\"-X\", request.method]\n", "        args += [\"-X\", request.method.upper()]\n", "R48.1"),
+    Mutant("resolve-without-option", F, "        ctx.options.export_preserve_original_ip\n        and server_addr\n", "        server_addr\n", "R48.1"),
+    Mutant("httpie-url-before-method", F, "    args = [\"http\", request.method, url]\n", "    args = [\"http\", url, request.method]\n", "R48.1"),
+    # R48.2: the repository instance is the known finding F-C48; these route the body through a *second* printf (attributed to the exporter: distinct finding)
     Mutant("httpie-body-through-printf", F, "        cmd += \" <<< \" + request_content_for_console(request)\n",
            "        cmd += \" <<< \" + '\"$(printf ' + shlex.quote(request.get_text(strict=False)) + ')\"'\n", "R48.2"),
-    Mutant("curl-header-through-printf", F, "            args += [\"-H\", f\"{k}: {v}\"]\n", "            args += [\"-H\", \"$(printf %s)\" % shlex.quote(f\"{k}: {v}\")]\n", "R48.2"),
+    Mutant("curl-body-through-printf", F, "        command += f\" -d {request_content_for_console(request)}\"\n",
+           "        command += ' -d \"$(printf ' + shlex.quote(request.get_text(strict=False)) + ')\"'\n", "R48.2"),
 ]
